@@ -227,10 +227,27 @@ def lbLogProb (logit z : α) : α :=
 /-- `LogisticBernoulli.threshold`: `(z >= 0).to(z)` -/
 def lbThreshold (z : α) : α := if 0 ≤ z then 1 else 0
 
-/-- `LogisticBernoulli.tlog_prob`: `-binary_cross_entropy_with_logits(logits, b)`, i.e.
-`b log σ(l) + (1 - b) log (1 - σ(l))`. -/
-def lbTlogProb (logit b : α) : α :=
+/-- Documented meaning of `-binary_cross_entropy_with_logits(logits, b)`:
+`b log σ(l) + (1 - b) log (1 - σ(l))`.  (Not what is executed: at saturated logits `1 - σ(l)`
+rounds to `0` in floating point.) -/
+def lbTlogProbDoc (logit b : α) : α :=
   b * T.log (T.sigmoid logit) + (1 - b) * T.log (1 - T.sigmoid logit)
+
+/-- `LogisticBernoulli.tlog_prob`: `-binary_cross_entropy_with_logits(logits, b)` in the form
+torch evaluates it, `-((1 - b) * l + log(1 + exp(-l)))` (stable at saturated logits; equal to
+`lbTlogProbDoc` over the reals for EVERY `b`: `C19_tlog_doc`). -/
+def lbTlogProb (logit b : α) : α :=
+  -((1 - b) * logit + T.log1p (T.exp (-logit)))
+
+/-- `torch.distributions.utils.clamp_probs(x)` = `x.clamp(min=eps, max=1 - eps)` with
+`eps = finfo(dtype).eps`: first `max(x, eps)`, then `min(·, 1 - eps)`. -/
+def clampProbs (eps x : α) : α :=
+  let y := if x < eps then eps else x
+  if 1 - eps < y then 1 - eps else y
+
+/-- `LogisticBernoulli.rsample` including the clamp of the uniform draw:
+`u = clamp_probs(torch.rand(..)); z = logits + u.log() - (-u).log1p()` -/
+def lbRsampleC (eps logit u : α) : α := lbRsample T logit (clampProbs eps u)
 
 /-- `LogisticBernoulli.csample` with the uniform draw `v` and `eps = finfo.eps`:
 ```
@@ -241,6 +258,11 @@ return zcond + b * eps
 def lbCsample (eps p v b : α) : α :=
   let zc := v / ((1 - v) * ((1 - b) * p + b * (1 - p))) + 1
   (2 * b - 1) * T.log zc + b * eps
+
+/-- `LogisticBernoulli.csample` as called: BOTH the uniform draw and `self.probs` go through
+`clamp_probs` (`v = clamp_probs(torch.rand_like(b)); probs = clamp_probs(self.probs)`), which is
+what keeps the sample finite for `probs ∈ {0, 1}` and draws `∈ {0, 1}`. -/
+def lbCsampleC (eps p v b : α) : α := lbCsample T eps (clampProbs eps p) (clampProbs eps v) b
 
 /-- `LogisticBernoulli.clog_prob`; `none` = `-inf` (`threshold(zcond) != b`). -/
 def lbClogProb (logit zc b : α) : Option α :=
@@ -277,13 +299,20 @@ def gThreshold (z : List α) : List α := oneHot (argmax z) z.length
 def gTlogProb (logits b : List α) : α :=
   sumL (List.zipWith (fun l b => if b = 0 then 0 else l) logits b)
 
-/-- `GumbelOneHotCategorical.csample` with uniform draws `vs`:
+/-- `x.abs().clamp_min(1.0)` -/
+def absClampMin1 (x : α) : α :=
+  let a := if x < 0 then -x else x
+  if a < 1 then 1 else a
+
+/-- `GumbelOneHotCategorical.csample` with uniform draws `vs` (after fixes/C19-gumbel-guard: the
+margin that keeps the conditioned class the strict maximum is RELATIVE, `eps * max(1, |z_k|)`;
+the pinned code subtracted an absolute `eps`, which floating point absorbs for `|z_k| >= 2`):
 ```
 log_v = v.log()
 zcond_match = -(-log_v).log() * b
 zcond_match_k = zcond_match.sum(-1)
 zcond_nomatch = -(-log_v / probs - (log_v * b).sum(-1)).log()
-zcond_nomatch = min(zcond_match_k - eps, zcond_nomatch) * (1 - b)
+zcond_nomatch = min(zcond_match_k - eps * zcond_match_k.abs().clamp_min(1), zcond_nomatch) * (1 - b)
 return zcond_match + zcond_nomatch
 ``` -/
 def gCsample (eps : α) (probs vs b : List α) : List α :=
@@ -292,8 +321,18 @@ def gCsample (eps : α) (probs vs b : List α) : List α :=
   let zk := sumL zmatch
   let s := sumL (List.zipWith (· * ·) logv b)
   let nomat := List.zipWith (fun lv p => -(T.log (-lv / p - s))) logv probs
-  let nomat' := List.zipWith (fun nm b => (if zk - eps < nm then zk - eps else nm) * (1 - b)) nomat b
+  let guard := zk - eps * absClampMin1 zk
+  let nomat' := List.zipWith (fun nm b => (if guard < nm then guard else nm) * (1 - b)) nomat b
   List.zipWith (· + ·) zmatch nomat'
+
+/-- `GumbelOneHotCategorical.rsample` including `u = clamp_probs(torch.rand(..))` -/
+def gRsampleC (eps : α) (logits us : List α) : List α :=
+  gRsample T logits (us.map (clampProbs eps))
+
+/-- `GumbelOneHotCategorical.csample` as called: `probs = clamp_probs(self.probs)`,
+`log_v = clamp_probs(torch.rand_like(b)).log()` -/
+def gCsampleC (eps : α) (probs vs b : List α) : List α :=
+  gCsample T eps (probs.map (clampProbs eps)) (vs.map (clampProbs eps)) b
 
 /-- `GumbelOneHotCategorical.clog_prob`; `none` = `-inf`. -/
 def gClogProb (logits zc b : List α) : Option α :=
@@ -377,6 +416,34 @@ def binomRec (L n k : Nat) : Nat := (binomRow L k).getD n 0
 /-- `binomial_coefficient` for one element of a batch whose largest length is `L`. -/
 def binomialCoefficient (L n k : Nat) : Nat :=
   if 20 < L then binomRec L n k else binomFact L n k
+
+/-! ### SimpleRandomSamplingWithoutReplacement.log_prob
+
+`log_partition` is computed in log space from a table of log-factorials; as everywhere in this
+file a log-space tensor is modelled by the number under the logarithm (`cumsum` of logs =
+`cumprod`, a difference of logs = a quotient).
+```
+log_factorial = arange(1, out_size + 1).log().cumsum(0)            # entry i = log (i+1)!
+t_idx = (total - 1).clamp_min(0); g_idx = (given - 1).clamp_min(0)
+tmg_idx = (total - given - 1).clamp_min(0)
+log_partition = log_factorial[t_idx] - log_factorial[g_idx] - log_factorial[tmg_idx]
+log_prob(value) = -log_partition
+``` -/
+
+/-- `exp(log_factorial)`: entry `i` is `(i+1)!`, `out_size` entries. -/
+def srsworFactTable (outSize : Nat) : List Nat := cumprodFrom 1 (List.range' 1 outSize)
+
+/-- `(x - 1).clamp_min(0)` as an index -/
+def srsworIdx (x : Int) : Nat := (if x - 1 < 0 then 0 else x - 1).toNat
+
+/-- `exp(log_partition)` for one batch element -/
+def srsworPartition (outSize total given : Nat) : Rat :=
+  let F := srsworFactTable outSize
+  (F.getD (srsworIdx total) 0 : Rat)
+    / ((F.getD (srsworIdx given) 0 : Rat) * (F.getD (srsworIdx ((total : Int) - given)) 0 : Rat))
+
+/-- `exp(log_prob(value))`: the same number for every `value` -/
+def srsworProb (outSize total given : Nat) : Rat := 1 / srsworPartition outSize total given
 
 /-! ### enumerate_* -/
 
